@@ -75,3 +75,48 @@ def python_bool_from_has(n: Tuple, evaluate) -> bool:
         if o[0] == "value" and o[1] == "bool":
             return True
     return False
+
+
+def wrap_has(n: Tuple) -> Tuple:
+    """The same program with every has(e.f) written as (has(e.f) == true): under the compiled runner that is a BoolType again."""
+    t = n[0]
+    if t == "has":
+        return ("paren", ("bin", "==", ("has", wrap_has(n[1]), n[2]), ("lit", "bool", True)))
+    if t in ("lit", "raw", "var", "dotvar"):
+        return n
+    if t == "un":
+        return ("un", n[1], wrap_has(n[2]))
+    if t == "paren":
+        return ("paren", wrap_has(n[1]))
+    if t == "bin":
+        return ("bin", n[1], wrap_has(n[2]), wrap_has(n[3]))
+    if t == "cond":
+        return ("cond", wrap_has(n[1]), wrap_has(n[2]), wrap_has(n[3]))
+    if t == "index":
+        return ("index", wrap_has(n[1]), wrap_has(n[2]))
+    if t == "select":
+        return ("select", wrap_has(n[1]), n[2])
+    if t in ("call", "dotcall"):
+        return (t, n[1], tuple(wrap_has(x) for x in n[2]))
+    if t == "method":
+        return ("method", wrap_has(n[1]), n[2], tuple(wrap_has(x) for x in n[3]))
+    if t == "macro":
+        return ("macro", wrap_has(n[1]), n[2], n[3], wrap_has(n[4]))
+    if t == "list":
+        return ("list", tuple(wrap_has(x) for x in n[1]))
+    if t == "map":
+        return ("map", tuple((wrap_has(k), wrap_has(v)) for k, v in n[1]))
+    if t == "msg":
+        return ("msg", wrap_has(n[1]), tuple((k, wrap_has(v)) for k, v in n[2]))
+    return n
+
+
+def has_bool_is_root_cause(n: Tuple, agrees) -> bool:
+    """True if the node contains has() and the disagreement disappears once every has() result is turned into a CEL bool.
+    `agrees(node)` evaluates the (rewritten) node and says whether the two sides now agree."""
+    if not any(x[0] == "has" for x in ir.walk(n)):
+        return False
+    try:
+        return bool(agrees(wrap_has(n)))
+    except Exception:
+        return False
